@@ -20,8 +20,11 @@ TRUSTED = [
 ]
 
 PHASES = ["loaded", "symbols", "resolved", "layout", "written"]
-KINDS = ["rewrite", "append", "touch", "replace", "replace-keeping-mtime"]
-COQ_KIND = {"rewrite": "Rewrite", "append": "Append", "touch": "Touch", "replace": "ReplaceFresh", "replace-keeping-mtime": "ReplaceKeepingMtime"}
+KINDS = ["rewrite", "append", "touch", "replace", "replace-keeping-mtime", "touch-into-the-past", "rewrite-with-an-older-time"]
+# (the last two give the file a modification time that is OLDER than the recorded one: `touch -d`, `cp -p` of an older build over the
+#  input in place; for the model they are a Touch / a Rewrite: the time becomes a different one)
+COQ_KIND = {"rewrite": "Rewrite", "append": "Append", "touch": "Touch", "replace": "ReplaceFresh", "replace-keeping-mtime": "ReplaceKeepingMtime",
+            "touch-into-the-past": "Touch", "rewrite-with-an-older-time": "Rewrite"}
 
 
 def setup(d):
@@ -55,6 +58,12 @@ def modify(path, kind):
             f.write(b"\n" if path.endswith(".ld") else b"\0")
     elif kind == "touch":
         os.utime(path, None)
+    elif kind == "touch-into-the-past":
+        os.utime(path, ns=(st.st_atime_ns, st.st_mtime_ns - 3600 * 10**9))
+    elif kind == "rewrite-with-an-older-time":
+        with open(path, "r+b") as f:          # same length, same inode
+            f.write(data)
+        os.utime(path, ns=(st.st_atime_ns, st.st_mtime_ns - 7 * 10**9))
     elif kind in ("replace", "replace-keeping-mtime"):
         tmp = path + ".new"
         with open(tmp, "wb") as f:
